@@ -118,6 +118,9 @@ package revision
 
 //@ func (*revision.APIEstablisher).update
 //@ props C16 C02
+// the only objects written are the two it is given (in particular no owner reference of the
+// existing object is edited on the way to the write)
+//@ frame writes current desired
 //@ ghost controllerAdded bool = false
 //@ optional site meta.AddControllerReference($o, _)
 //@   assert [C16:only-a-controlling-revision-takes-control] control && $o == desired
